@@ -404,11 +404,31 @@ func bitmaskOf(fs []xFile) map[string]bool {
 }
 
 type genJob struct {
-	op   string
-	fs   []xFile
-	impl string
-	pkg  string // directory of the generated package ("" when Convert failed)
-	k    int
+	op    string
+	fs    []xFile
+	impl  string
+	pkg   string // directory of the generated package ("" when Convert failed)
+	k     int
+	files []string // names of the generated files
+}
+
+// genfilesOp: the names of the files the generator wrote for a set, with the names of the definitions they hold; judged by the
+// driver (model: the names `goFileName` gives; specification: every file is a plain source file for the go tool, one per definition)
+func genfilesOp(j *genJob) string {
+	var ms, es []string
+	seen := map[string]bool{}
+	for _, f := range j.fs {
+		for _, m := range f.msgs {
+			ms = append(ms, m.name)
+		}
+		for _, e := range f.enums {
+			if !seen[e.name] {
+				seen[e.name] = true
+				es = append(es, e.name)
+			}
+		}
+	}
+	return fmt.Sprintf("genfiles %s %s %s", dash(strings.Join(ms, ",")), dash(strings.Join(es, ",")), dash(strings.Join(j.files, ",")))
 }
 
 // runGenBatch converts every set, then compiles and runs one probe program for all of them.
@@ -431,6 +451,11 @@ func runGenBatch(jobs []*genJob) {
 			continue
 		}
 		j.pkg = p1
+		entries, _ := os.ReadDir(p1)
+		for _, e := range entries {
+			j.files = append(j.files, e.Name())
+		}
+		sort.Strings(j.files)
 	}
 	build := func(sel []*genJob) (string, bool) {
 		os.RemoveAll(mod)
@@ -590,6 +615,10 @@ func randMsgName(r *rngT, used map[string]bool) string {
 		for i := 0; i < k; i++ {
 			ws = append(ws, words[r.Intn(len(words))])
 		}
+		if r.Intn(6) == 0 {
+			// names whose lower-case form ends like a file name the go tool interprets (x_test.go, x_windows.go, x_arm.go)
+			ws = append(ws, goToolWords[r.Intn(len(goToolWords))])
+		}
 		n := strings.Join(ws, "_")
 		if n[0] >= '0' && n[0] <= '9' {
 			continue
@@ -601,6 +630,10 @@ func randMsgName(r *rngT, used map[string]bool) string {
 		}
 	}
 }
+
+// last name elements that mean something to the go tool when they end a file name: test files, GOOS and GOARCH values
+var goToolWords = []string{"TEST", "WINDOWS", "LINUX", "DARWIN", "JS", "IOS", "ANDROID", "PLAN9", "ARM", "ARM64", "386", "AMD64", "WASM", "MIPS",
+	"S390X", "PPC64", "RISCV64", "ZOS", "AIX", "WASIP1"}
 
 func randEnumValue(r *rngT, bitmask bool, i int) (string, uint64) {
 	var v uint64
@@ -618,6 +651,28 @@ func randEnumValue(r *rngT, bitmask bool, i int) (string, uint64) {
 		v = uint64(i*3 + r.Intn(3))
 		if r.Intn(6) == 0 { // large values, distinct per position
 			v = uint64(1)<<uint(20+i*8) + uint64(r.Intn(1000))
+		}
+		if r.Intn(7) == 0 {
+			// power syntax with a base other than two (a prime per position: distinct by construction), results over the whole
+			// 64-bit range: beyond 2^53 only integer arithmetic gives the value the XML states
+			primes := []uint64{3, 5, 7, 11, 13, 17, 19, 23, 29, 31, 37, 41}
+			b := primes[i%len(primes)]
+			emax := 0
+			for p := b; p <= ^uint64(0)/b; p *= b {
+				emax++
+			}
+			emax++ // b**emax < 2^64 <= b**(emax+1)
+			e := emax - r.Intn(5)
+			if r.Intn(4) == 0 {
+				e = 2 + r.Intn(emax-1)
+			}
+			p := uint64(1)
+			for k := 0; k < e; k++ {
+				p *= b
+			}
+			if p > 40 { // small values belong to the decimal entries
+				return fmt.Sprintf("%d**%d", b, e), p
+			}
 		}
 	}
 	switch r.Intn(5) {
@@ -688,6 +743,9 @@ func genDialectSet(r *rngT, serial int) []xFile {
 	for i := nf - 1; i >= 0; i-- {
 		for e := 0; e < r.Intn(3); e++ {
 			en := xEnum{name: fmt.Sprintf("ENUM_%d_%c", serial%1000, 'A'+len(enumNames)), bitmask: r.Intn(3) == 0}
+			if r.Intn(6) == 0 {
+				en.name += "_" + goToolWords[r.Intn(len(goToolWords))]
+			}
 			var nums []uint64
 			for k := 0; k < 1+r.Intn(5); k++ {
 				vs, v := randEnumValue(r, en.bitmask, k)
@@ -837,6 +895,10 @@ func genC18(r *rngT, n int, tier string) {
 		for _, j := range jobs {
 			emit(j.op, j.impl)
 			stat("op:gencheck")
+			if len(j.files) > 0 {
+				emit(genfilesOp(j), "ok")
+				stat("op:genfiles")
+			}
 		}
 		out.Flush()
 	}
@@ -874,6 +936,10 @@ func genC19gen(r *rngT, n int, tier string) {
 		for _, j := range jobs {
 			emit(j.op, j.impl)
 			stat("op:gencheck")
+			if len(j.files) > 0 {
+				emit(genfilesOp(j), "ok")
+				stat("op:genfiles")
+			}
 		}
 		out.Flush()
 	}
